@@ -142,3 +142,19 @@ check(
     "Trusted: TLC, recording handlers, ShownText.tla (copy of C20's 'markup aside' matcher). SystemExit/GeneratorExit are outside the quantifier; quiet mode, I/O-factory and constructor failures are not in the product. exception_to_exit_code never uses a 'code' attribute (status 1): non-zero is all the statement demands.",
     "DESIGN.md#C04",
 )
+check(
+    "C09",
+    ["Switches", "SwitchesTrace"],
+    "TLA+ model of the default application configuration's switch handling (A: create_io, help listener on PRE_RESOLVE, version listener on PRE_HANDLE, one Stage per pipeline step; P: quiet silence, verbosity, ANSI on/off, no-interaction, help page of the path's command, version, nothing after '--') checked by TLC; every line built by switch insertion replayed through ConsoleApplication.run; random lines decided by SwitchesTrace.tla",
+    "TLC builds lines by actions - every subset, spelling, order and placement of up to 2 (quick) / 3 (thorough) of the 13 switch tokens among the tokens of valid command lines for a fixed application (a command with required argument and valued option, a command with sub-commands incl. a default one, a top-level command, the built-in help), plus look-alikes after '--' - for ok / status-code / raising handlers and three stream kinds; the '--' clause is a relational invariant against the run of the line without the look-alikes; 15 361 (quick) / 235 564 (thorough) runs are replayed through ConsoleApplication.run with recording handlers (tagged lines per verbosity on both streams, a confirmation question, recorded I/O state) and compared; simulated lines with up to 7 switches and 3 000 / 40 000 random lines are decided by TLC.",
+    "Trusted: TLC, recording handlers/streams, the page comparison against CommandHelp/ApplicationHelp rendered directly. The application and its trees are fixed (generated trees are C03's subject); switches before or inside the command path only claim the quiet / verbosity / ANSI / interaction / '--' clauses; short-option groups (-qn), --verbose[=n], --ansi together with --no-ansi, handlers writing through io.section() are not covered.",
+    "DESIGN.md#C09",
+)
+check(
+    "C13",
+    ["HelpPage", "HelpPageTrace"],
+    "TLA+ model of application and command help pages on generated command trees (P: rendering succeeds, entries = every non-hidden enabled command / argument / option own and inherited under preferred and alternative name, nothing hidden or disabled, every line fits, 'help <path>' = '<path> --help'; A: exact layout incl. a textwrap model) checked by TLC; every page and request replayed; random applications decided by HelpPageTrace.tla",
+    "TLC enumerates 944 + 192 (quick) / 21 162 (thorough) applications - small trees with default / anonymous / hidden / disabled commands whose commands carry 0-2 arguments and 0-2 options with every flag kind, descriptions absent / short / several lines, defaults of every type - and checks the page clauses on the model; 5 800 / 110 934 pages and 4 392 / 81 678 help requests (both forms) are rendered by the real classes at several terminal widths, ANSI and plain, and reproduce the model's page blank for blank; 150 / 2 500 random applications are decided by TLC.",
+    "Trusted: TLC, the page parser of the driver (section headings -> labelled lines -> first token). Open known findings: arguments named like a registered style tag; 'help help' vs 'help --help'. Global arguments, custom value names, markup or braces in descriptions, East-Asian widths are outside.",
+    "DESIGN.md#C13",
+)
